@@ -269,7 +269,7 @@ pub fn run(run: &mut Run) {
             run.require_class(&format!("pair/{kp}/{rc}"));
         }
     }
-    let n = run.tier.pick(20_000, 400_000);
+    let n = run.tier.pick(100_000, 4_000_000);
     let si = (0u8..3, (wide_i64(), wide_i64()), 0u8..3, (wide_i64(), wide_i64()), wide_i64()).prop_map(|(ka, a, kb, b, x)| WideI { ka, a, kb, b, x });
     run.prop("wide_i64", n, si, wide_i);
     let fin = |x: f64| if x.is_infinite() { f64::MAX.copysign(x) } else { x };
